@@ -115,6 +115,7 @@ package trie2
 //@   props C03 C01
 //@   arith int
 //@   nosafe
+//@   assumecalleepre
 //@   requires t != nil
 //@   modifies *
 //@   assigns calls_traceDelete, arg_traceDelete_key
